@@ -308,7 +308,7 @@ def r13_2(ctx):
             ctx.ob(f"stdout-site:parser:{_opt_key(binc, sup, n)}:{b.name}", ok, v.site(n), "stdout obtained for help/version, which then exits 0" if ok else "stdout obtained in the argument parser on a path that does not exit 0")
         else:
             # the sink: the handle must flow into the translator's writer
-            carr = carriers(sup, n, t["dest"]["l"], extra_pass=("::lock", "BufWriter", "::new"))
+            carr = carriers(sup, n, t["dest"]["l"], extra_pass=("::lock", "BufWriter", "::new", "::with_capacity"))
             feeds = any(is_place(a) and (nn[0], a["p"]["l"]) in carr for nn, _, tt in v.new for a in tt["args"])
             ctx.ob(f"stdout-site:sink:{b.name}", feeds, v.site(n), "stdout handle becomes the translator's sink" if feeds else "stdout obtained outside the sink and the help/version arms")
     for b in binc.bodies:
@@ -565,6 +565,19 @@ def r13_5(ctx):
                     errs = bi not in r
                     if dom and errs:
                         ok = True
+                if not ok:
+                    # the same guard as a match on the accumulator: `match acc { Some(_) => return Err(..), None => acc = Some(..) }`
+                    for sb in sorted(b.reach()):
+                        sw = b.blocks[sb]["term"]
+                        if sw["k"] != "switch":
+                            continue
+                        for ds in b.blocks[sb]["stmts"]:
+                            if not (ds["k"] == "assign" and ds["rv"]["k"] == "discr" and ds["rv"]["p"]["l"] == p["l"] and [e["k"] for e in ds["rv"]["p"]["pr"]] == [e["k"] for e in p["pr"]]):
+                                continue
+                            none_e = enum_edge(b, sb, 0)
+                            some_e = enum_edge(b, sb, 1)
+                            if none_e and some_e and b.edge_dominates(none_e[0], none_e[1], none_e[2], bi) and bi not in b.reachable_from(some_e[2]):
+                                ok = True
                 ctx.ob(f"dup-guard:{b.name}:{name}", ok, site(b, bi), f"`{name} = Some(..)` is guarded by an is_some() test that returns an error" if ok else f"`{name}` can be overwritten by a repeated option")
                 guarded_sites.setdefault(b.id, []).append((p["l"] if not p["pr"] else None, ok))
     if n == 0:
@@ -801,6 +814,30 @@ def r14_1(ctx):
     _detect_only_on_none(ctx)
 
 
+def _unreachable_with_format(lib, det_call):
+    """The detection call cannot be reached from any function that takes an `Option<Format>` while that argument is
+    `Some(..)`: decided path-sensitively on the function's supergraph (the Option may have been turned into a
+    crate-local enum, matched in a helper, or consumed by `map_or_else`), for every such function that reaches the call."""
+    entries = 0
+    for e in lib.bodies:
+        if e.raw["def_kind"] == "Closure":
+            continue
+        params = [k for k in range(1, e.nargs + 1) if "Option<Format>" in e.local_ty(k) or "Option<crate::Format>" in e.local_ty(k)]
+        if not params:
+            continue
+        sup = Super(lib, e, depth=4)
+        dn = [n for n, _, tt in sup.calls() if tt is det_call]
+        if not dn:
+            continue
+        entries += 1
+        ps = PathSens(sup, payloads=False)
+        start = {((), k): ("var", 1) for k in params}
+        reached = ps.explore([(sup.entry, start)])
+        if ps.overflow or any(n in reached for n in dn):
+            return False
+    return entries >= 1
+
+
 def _detect_only_on_none(ctx):
     det_fn = common.detect_function(ctx.facts)
     lib = ctx.lib
@@ -836,6 +873,8 @@ def _detect_only_on_none(ctx):
             if (f.get("resolved") or f.get("def")) == det_fn.id:
                 nn += 1
                 ok = none_guarded(b, bb)
+                if not ok:
+                    ok = _unreachable_with_format(lib, t)
                 ctx.ob(f"detect-only-on-none:{b.name}", ok, site(b, bb), "detection is reached only through the None edge of the `from` argument" if ok else "detection can run although a source format was given")
     ctx.ob("detect-call-sites", nn >= 1, site(det_fn), f"{nn} call site(s) of the detection driver")
 
@@ -1452,3 +1491,77 @@ def r16_3(ctx):
             else:
                 kinds.append(str(how))
         ctx.ob("lock-flows-only-into-sink", len(kinds) == 1, v.site(n), f"the lock is consumed by {kinds}")
+
+
+_DECODING = ("lexopt::ValueExt::parse", "lexopt::ValueExt::parse_with", "lexopt::ValueExt::string", "std::ffi::OsString::into_string", "std::ffi::OsStr::to_str", "std::ffi::OsStr::to_string_lossy", "core::str::<impl str>::parse")
+_LOSSLESS = ("std::convert::From::from", "std::convert::Into::into", "std::path::PathBuf::from", "std::ops::Try::branch")
+
+
+@rule("R13.6", 1, "operands are taken as the OS strings they are: the value the argument parser adds to its list of input paths comes from lexopt's `Value` payload through lossless conversions only (no UTF-8 decoding that would turn a file name that is not valid UTF-8 into a usage error)", ["C13", "C14"])
+def r13_6(ctx):
+    binc = ctx.bin
+    parsers = [b for b in binc.bodies if any((fn_of(t) or {}).get("def", "").startswith("lexopt::Parser::next") or (fn_of(t) or {}).get("def") == "lexopt::Parser::next" for _, t in b.calls())]
+    ctx.need(parsers, "argument parser (a body calling lexopt::Parser::next) not found")
+    n = 0
+    for b in parsers:
+        for bb, t in b.calls():
+            f = fn_of(t) or {}
+            if f.get("name") != "push" or not f.get("def", "").startswith("std::vec::Vec") or len(t["args"]) != 2:
+                continue
+            ety = (f.get("args") or [""])[0]
+            if "PathBuf" not in ety and "OsString" not in ety and "Path" not in ety:
+                continue
+            n += 1
+            bad = None
+            cur = t["args"][1]
+            ok = False
+            for _ in range(8):
+                tr = trace(b, cur, passthrough_extra=("std::ops::Try::branch",))
+                if any(s_[0] == "downcast" and s_[1] == "Value" for s_ in tr.steps):
+                    ok = True
+                    break
+                if not (tr.origin and tr.origin[0] == "call"):
+                    break
+                d = (fn_of(tr.origin[2]) or {}).get("def", "")
+                if d in _DECODING:
+                    bad = d
+                    break
+                if (d in _LOSSLESS or (fn_of(tr.origin[2]) or {}).get("trait") in ("std::convert::From", "std::convert::Into")) and tr.origin[2]["args"]:
+                    cur = tr.origin[2]["args"][0]
+                    continue
+                break
+            ctx.ob(f"operand-undecoded:{b.name}:{n}", ok and bad is None, site(b, bb),
+                   "the operand is the parser's Value payload, converted losslessly" if ok and bad is None else
+                   (f"the operand goes through `{bad}`: a file name that is not valid UTF-8 is rejected as a usage error (exit 2, nothing translated) instead of being opened" if bad else "the value added to the input paths does not derive from the parser's Value payload"))
+    ctx.ob("operand-pushes", n >= 1, site(parsers[0]), f"{n} place(s) where an operand is added to the list of input paths")
+
+
+# open(2) flags that std sets anyway (or that change nothing for a read-only open): O_CLOEXEC on Linux
+_HARMLESS_OPEN_FLAGS = (0, 0o2000000)
+
+
+@rule("R14.5", 2, "input files are opened the plain way: read-only and blocking. `OpenOptions` may spell out `read(true)` and flags std sets anyway; a flag that changes what `open`/`read` do (O_NONBLOCK: a FIFO whose writer is late reads as empty or fails with EAGAIN) or a write mode is refused", ["C14", "C05", "C02"])
+def r14_5(ctx):
+    import deny
+
+    n = 0
+    for crate in (ctx.lib, ctx.bin):
+        for entry, b, bb, t in deny.hits(crate.bodies, "open-modes"):
+            n += 1
+            f = fn_of(t) or {}
+            v = None
+            if len(t["args"]) >= 2:
+                v = const_value(t["args"][1])
+                if v is None and is_place(t["args"][1]):
+                    tr = trace(b, t["args"][1])
+                    if tr.origin and tr.origin[0] == "const" and all(s_[0] in ("use", "cast") for s_ in tr.steps):
+                        v = tr.origin[1].get("v")
+            if entry == "custom_flags":
+                ok = isinstance(v, int) and not isinstance(v, bool) and v in _HARMLESS_OPEN_FLAGS
+                det = f"custom_flags({v:#o}) — set by std for every open anyway" if ok else f"custom_flags({v if v is None else oct(v)}): the input is no longer opened with the plain blocking read-only semantics the reader path relies on (with O_NONBLOCK a FIFO or process substitution whose writer has not delivered yet reads as end of input or fails with EAGAIN)"
+            else:
+                ok = v is False
+                det = f"{f.get('name')}(false)" if ok else f"the input is opened with `{f.get('name')}({v})`: not a read-only open"
+            ctx.ob(f"open-mode:{crate.kind}:{b.name}:{f.get('name')}", ok, site(b, bb), det)
+    ctx.ob("open-mode-sites", True, "lib+bin", f"{n} OpenOptions modifier(s) beyond read(true) in xt", trivial=n == 0)
+    deny.control_obligations(ctx, "open-modes")
